@@ -1,8 +1,132 @@
 import Genshi.Wire
+import Genshi.Model.Conc
+import Driver.C15
 namespace Driver.C16
-open Genshi
+open Genshi Genshi.Sexp Genshi.Lru Genshi.Loader Genshi.Conc
 
-/-- stub: the model driver for C16 is not built yet -/
-def handle : List Sexp → Option Sexp := fun _ => none
+/-! `C16 trace <cap> <autoReload> <callback> ( path ) ( setup ops ) ( programs ) ( events )`
+
+  trace validation: the events recorded from real threads (lock proxy, cache subclass, load
+  wrapper) must be an execution of the interleaving model.  Each event is matched against the
+  next *visible* step of its thread (silent steps — decision, parse, end of callback — are taken
+  on demand; they belong to the lock holder and commute with everything the others may do). -/
+
+partial def creq? (pathEmpty : Bool) : Sexp → Option CReq
+  | .list [.atom "Q", base, sub, absd, rel, cls, enc, cb, fault, .list children] => do
+      let base ← base.toNat?; let sub ← sub.toBool?; let absd ← Driver.C15.optNat? absd
+      let rel ← Driver.C15.rel? rel
+      let cls ← cls.toNat?; let enc ← enc.toNat?; let cb ← cb.toBool?; let fault ← Driver.C15.fault? fault
+      let r : Req := ⟨base, sub, absd, rel, cls, enc, cb, fault⟩
+      let key ← resolve pathEmpty r
+      let cs ← children.mapM (creq? pathEmpty)
+      pure (.mk r key cs)
+  | _ => none
+
+inductive Label where
+  | call | acq | blk | get (hit : Option Nat) | put (obj : Nat) | rel | ret (res : Option Nat) (err : String)
+
+def label? : List Sexp → Option Label
+  | [.atom "call"] => some .call
+  | [.atom "acq"] => some .acq
+  | [.atom "blk"] => some .blk
+  | [.atom "get", .atom "N"] => some (.get none)
+  | [.atom "get", n] => do let n ← n.toNat?; pure (.get (some n))
+  | [.atom "put", n] => do let n ← n.toNat?; pure (.put n)
+  | [.atom "rel"] => some .rel
+  | [.atom "ret", .atom "ok", n] => do let n ← n.toNat?; pure (.ret (some n) "")
+  | [.atom "ret", .atom "err", .atom e] => some (.ret none e)
+  | _ => none
+
+def event? : Sexp → Option (Tid × Label)
+  | .list (t :: rest) => do let t ← t.toNat?; let l ← label? rest; pure (t, l)
+  | _ => none
+
+def errName : Err → String
+  | .notFound => "TemplateNotFound"
+  | .syntaxError => "TemplateSyntaxError"
+  | .callback => "CallbackError"
+  | .loadFunc => "LoadFuncError"
+  | .noSearchPath => "TemplateError"
+
+/-- what the next step of thread `t` shows: `none` = silent -/
+inductive Next where
+  | finished | silent | vis (ok : Label → Bool)
+
+def nextOf (g : G) (t : Tid) : Next :=
+  let th := g.threads t
+  match th.stack with
+  | [] => match th.todo with
+    | [] => .finished
+    | _ => .vis fun | .call => true | _ => false
+  | ⟨q, pc⟩ :: _ =>
+    match pc with
+    | .start => .vis fun | .acq => true | _ => false
+    | .acquired =>
+      let hit := (alookup q.key g.ls.cache.items).map (·.obj)
+      .vis fun | .get h => h == hit | _ => false
+    | .looked _ => .silent
+    | .found _ _ _ _ => .silent
+    | .calling _ _ (_ :: _) => .vis fun | .call => true | _ => false
+    | .calling _ _ [] => .silent
+    | .called tm _ => .vis fun | .put o => o == tm.obj | _ => false
+    | .done _ => .vis fun | .rel => true | _ => false
+    | .released res =>
+      .vis fun
+        | .ret (some o) _ => (match res with | .ok tm => tm.obj == o | _ => false)
+        | .ret none e => (match res with | .err er => errName er == e | _ => false)
+        | _ => false
+
+/-- match one event; `none`: rejected -/
+def matchEvent (c : CCfg) : Nat → G → Tid → Label → Option G
+  | 0, _, _, _ => none
+  | fuel + 1, g, t, l =>
+    match l with
+    | .blk =>
+      -- the thread found the lock taken: in the model its acquire step must be disabled
+      match (g.threads t).stack with
+      | ⟨_, .start⟩ :: _ => if (step c g t).isNone then some g else none
+      | _ => none
+    | _ =>
+      match nextOf g t with
+      | .finished => none
+      | .silent => match step c g t with
+        | none => none
+        | some g' => matchEvent c fuel g' t l
+      | .vis ok => if ok l then step c g t else none
+
+def runEvents (c : CCfg) : Nat → G → List (Tid × Label) → Except Nat G
+  | _, g, [] => .ok g
+  | i, g, (t, l) :: more =>
+    match matchEvent c 8 g t l with
+    | none => .error i
+    | some g' => runEvents c (i + 1) g' more
+
+def resS (r : Res) : Sexp :=
+  match r with
+  | .ok t => .list [.atom "ok", ofNat t.obj]
+  | .err e => .list [.atom "err", .atom (errName e)]
+
+def handle : List Sexp → Option Sexp
+  | [.atom "trace", cap, ar, cb, .list path, .list setup, .list progs, .list events] => do
+      let cap ← cap.toNat?; let ar ← ar.toBool?; let cb ← cb.toBool?
+      let path ← path.mapM Driver.C15.entry?
+      let setup ← setup.mapM Driver.C15.hop?
+      let cfg : Cfg := ⟨path, ar, cap, cb⟩
+      let progs ← progs.mapM fun
+        | .list qs => qs.mapM (creq? path.isEmpty)
+        | _ => none
+      let events ← events.mapM event?
+      let w := (hrun cfg (World.init cap) setup).1
+      let c : CCfg := ⟨cfg, w.fs, true⟩
+      let g0 := G.init w.ls progs
+      match runEvents c 0 g0 events with
+      | .error i => pure (.list [.atom "reject", ofNat i])
+      | .ok g =>
+        let done := (List.range g.n).all fun t => (g.threads t).finished
+        pure (.list [.atom (if done then "ok" else "incomplete"),
+          .list (g.ls.cache.items.map fun (k, t) => .list [Driver.C15.keyS k, ofNat t.obj]),
+          .list (g.completed.map fun (t, _, r) => .list [ofNat t, resS r]),
+          ofNat g.ls.nextObj, ofBool g.owner.isNone])
+  | _ => none
 
 end Driver.C16
